@@ -41,7 +41,7 @@ func (l *Ledger) AddRecord(tag string, s, o int, heightBits, nonceBits int) *Rec
 	complete := verifrt.U64(tag + "_complete")
 	nonce := verifrt.U64(tag + "_nonce")
 	h := uint64(ctx.BlockHeight())
-	verifrt.Assume(start <= h && complete >= h && complete < (uint64(1)<<uint(heightBits)) && nonce < (uint64(1)<<uint(nonceBits)))
+	verifrt.Assume(verifrt.All(start <= h, complete >= h, complete < (uint64(1)<<uint(heightBits)), nonce < (uint64(1)<<uint(nonceBits))))
 	tx := TxHashes[verifrt.Choice(tag+"_tx", len(TxHashes))]
 	rec := delegationtypes.UndelegationRecord{
 		StakerID: StakerID(s), AssetID: l.AssetID, OperatorAddr: OperatorBech[o], TxHash: tx, IsPending: true,
